@@ -380,6 +380,9 @@ def run_loop(payload) -> Dict[str, Any]:
             n = len(list(an(entity(let(cl[0], None))).evaluate()))
         elif mode == "eql_domain":
             n = len(list(an(entity(let(cl[0], xs))).evaluate()))
+        elif mode == "declare":
+            an(entity(let(cl[0], None)))   # declared while the instances exist, dropped without evaluating
+            n = -1
         else:
             n = -1
         del xs, ps, cs
@@ -780,7 +783,7 @@ def run(tier: str, seed: int, replay=None) -> int:
     rep = Report(PROP, tier, seed, "proof")
     rep.trusted = core.COQ_TRUSTED + TRUSTED
     rep.assume = ASSUME
-    rep.rule = ("corpus + all valid histories of length 4 (quick) / 5 (thorough) over {New A, New D, Drop, Sweep, QueryG A/C, Relate} "
+    rep.rule = ("corpus + all valid histories of length 4 (quick) / 5 (thorough) over {New A, New D, Drop, Sweep, QueryG A/C, Relate, Declare A (once, early), Eval} "
                 "+ seeded random histories (4..16 ops quick, 4..28 thorough) over 8 classes (tree + diamond + value-equal class) "
                 "in profiles F / churn (no Clear, no EQL query), Fq / decl (variables declared by let(T, None), the world changed by New / Drop / "
                 "Sweep / Relate, evaluated later; fused QueryE) and all (Clear, QueryE, Declare, Eval incl. re-evaluation); non-trivial = >= 4 ops of >= 3 kinds; "
